@@ -5,9 +5,13 @@ SetWaitBit resolves an optional wait bit and returns an equal message when the w
 already decided; SetSessionIDAndSystemBytes changes only those two fields (system bytes padded
 or cut to four); every other field is carried over unchanged and the result satisfies the
 constructor's validity rules; refusals are exactly the documented ones. Lifted to arbitrary
-sequences of producer calls by induction.
+sequences of producer calls by induction; FillVariables (the third producer) changes the item
+only (`fill_frame`), and sequences mixing all three keep name, stream, function and direction,
+stay valid, and touch session id / system bytes only in a SetSessionIDAndSystemBytes call
+(`producers_seq`).
 -/
 import SecsModel.Model.Msg
+import SecsModel.Model.Fill
 import SecsModel.Generated.Facts
 namespace Secs.C18
 open Secs
@@ -160,6 +164,86 @@ theorem wait_stable_seq (m : Msg) (cs : List Call) (h : m.waitBit ≠ 2) : (cs.f
         | none => rfl
         | some m' => exact ((setSession_frame m m' sid sys hh).2.2.1.2.2.2.2.2).symm
     rw [List.foldl_cons, ih (apply m c) (by rw [hstep]; exact h), hstep]
+
+/-! ### the third producer: FillVariables -/
+
+/-- FillVariables changes the item and nothing else; the result is valid -/
+theorem fill_frame (m m' : Msg) (e : Env) (h : m.fill e = some m') :
+    m'.name = m.name ∧ m'.stream = m.stream ∧ m'.function = m.function ∧ m'.direction = m.direction ∧
+    m'.waitBit = m.waitBit ∧ m'.sessionID = m.sessionID ∧ m'.sysBytes = m.sysBytes ∧
+    m.item.fill e = some m'.item ∧ m'.valid = true := by
+  unfold Msg.fill at h
+  cases ht : m.item.fill e with
+  | none => simp [ht] at h
+  | some t1 =>
+    simp only [ht, Option.bind_some] at h
+    obtain ⟨rfl, hv⟩ := checked_some _ _ h
+    exact ⟨rfl, rfl, rfl, rfl, rfl, rfl, rfl, rfl, hv⟩
+
+inductive Call3 where
+  | wait (w : Bool)
+  | session (sid : Int) (sys : Bytes)
+  | fill (e : Env)
+
+def apply3 (m : Msg) : Call3 → Msg
+  | .wait w => apply m (.wait w)
+  | .session sid sys => apply m (.session sid sys)
+  | .fill e => (m.fill e).getD m
+
+def Call3.isSession : Call3 → Bool
+  | .session _ _ => true
+  | _ => false
+
+def headFields (m : Msg) := (m.name, m.stream, m.function, m.direction)
+
+theorem apply3_step (m : Msg) (c : Call3) (hv : m.valid = true) :
+    headFields (apply3 m c) = headFields m ∧ (apply3 m c).valid = true ∧
+    (c.isSession = false → (apply3 m c).sessionID = m.sessionID ∧ (apply3 m c).sysBytes = m.sysBytes) := by
+  cases c with
+  | wait w =>
+    have hf := apply_frame m (.wait w)
+    simp only [frameFields, Prod.mk.injEq] at hf
+    refine ⟨by simp [apply3, headFields, hf.1, hf.2.1, hf.2.2.1, hf.2.2.2.1], apply_valid m _ hv, fun _ => ?_⟩
+    simp only [apply3, apply]
+    cases h : m.setWaitBit w with
+    | none => exact ⟨rfl, rfl⟩
+    | some m' =>
+      by_cases h2 : m.waitBit = 2
+      · obtain ⟨_, ⟨_, _, _, _, _, a, b⟩, _⟩ := setWait_frame m m' w h2 h
+        exact ⟨a.symm, b.symm⟩
+      · rw [setWait_noop_when_decided m w h2] at h; injection h with h; subst h; exact ⟨rfl, rfl⟩
+  | session sid sys =>
+    have hf := apply_frame m (.session sid sys)
+    simp only [frameFields, Prod.mk.injEq] at hf
+    exact ⟨by simp [apply3, headFields, hf.1, hf.2.1, hf.2.2.1, hf.2.2.2.1], apply_valid m _ hv, fun h => by simp [Call3.isSession] at h⟩
+  | fill e =>
+    simp only [apply3]
+    cases h : m.fill e with
+    | none => exact ⟨rfl, by simpa using hv, fun _ => ⟨rfl, rfl⟩⟩
+    | some m' =>
+      obtain ⟨a, b, c, d, _, f, g, _, v⟩ := fill_frame m m' e h
+      exact ⟨by simp [headFields, a, b, c, d], by simpa using v, fun _ => ⟨by simpa using f, by simpa using g⟩⟩
+
+/-- any sequence of the three producers, refused calls included: name, stream, function and
+direction never change, every intermediate message is valid, and without a
+SetSessionIDAndSystemBytes call the session id and system bytes are those of the start -/
+theorem producers_seq (m : Msg) (cs : List Call3) (hv : m.valid = true) :
+    headFields (cs.foldl apply3 m) = headFields m ∧ (cs.foldl apply3 m).valid = true ∧
+    (cs.all (fun c => !c.isSession) = true →
+      (cs.foldl apply3 m).sessionID = m.sessionID ∧ (cs.foldl apply3 m).sysBytes = m.sysBytes) := by
+  induction cs generalizing m with
+  | nil => exact ⟨rfl, hv, fun _ => ⟨rfl, rfl⟩⟩
+  | cons c r ih =>
+    obtain ⟨h1, h2, h3⟩ := apply3_step m c hv
+    obtain ⟨i1, i2, i3⟩ := ih (apply3 m c) h2
+    refine ⟨by rw [List.foldl_cons, i1, h1], by rw [List.foldl_cons]; exact i2, ?_⟩
+    intro hall
+    simp only [List.all_cons, Bool.and_eq_true, Bool.not_eq_true'] at hall
+    obtain ⟨a, b⟩ := i3 (by simpa using hall.2)
+    obtain ⟨c1, c2⟩ := h3 hall.1
+    rw [List.foldl_cons]
+    exact ⟨a.trans c1, b.trans c2⟩
+
 
 /-! ### tie to the source: the bounds used by DataMessage.checkRep -/
 theorem facts_checkrep_bounds :
